@@ -6,7 +6,7 @@
    walks over all parents, not older than the cut-off. *)
 From Coq Require Import List Permutation NArith ZArith.
 From GixV.Base Require Import Bytes Outcome.
-From GixV.C47 Require Import Model Spec ProofsHeap ProofsWalk Proofs.
+From GixV.C47 Require Import Model Spec ProofsHeap ProofsWalk Proofs ProofsTopo.
 Import ListNotations.
 
 (* every commit is returned at most once — every object database (any graph, even cyclic), any tips (also
@@ -56,6 +56,24 @@ Theorem heap_pop_none_is_empty :
   forall (K V : Type) (le : K -> K -> bool) (l : @heap K V), heap_pop le l = None -> l = [].
 Proof. intros. eapply heap_pop_none; eauto. Qed.
 
+(* ---- Topo (topo::Builder::build + Iterator::next), object databases without commit-graph data, every tips /
+   ends / predicate / sorting / parents mode / fuel ---- *)
+(* no commit is returned twice (also with repeated tips: fix e60a841bd) *)
+Theorem topo_each_once :
+  forall o first F pred date tips ends items,
+    no_graph o ->
+    topo_walk o first F pred date tips ends = Ok items ->
+    NoDup (map fst items).
+Proof. intros o first F pred date tips ends items NG H. exact (proj1 (topo_walk_facts o first F tips NG pred date ends items H)). Qed.
+
+(* every returned commit is reachable from a tip along the (first) parents the walk follows *)
+Theorem topo_subset_reachable_from_tips :
+  forall o first F pred date tips ends items x,
+    no_graph o ->
+    topo_walk o first F pred date tips ends = Ok items ->
+    In x (map fst items) -> reach o first (fun _ => true) tips x.
+Proof. intros o first F pred date tips ends items x NG H. exact (proj2 (topo_walk_facts o first F tips NG pred date ends items H) x). Qed.
+
 (* ---- non-vacuity: a history with a merge, colliding times, a repeated tip ---- *)
 Definition ex_odb : odb :=
   [ mkC 10 0 []; mkC 10 0 [0%N]; mkC 11 0 [0%N]; mkC 11 0 [1%N; 2%N]; mkC 5 0 [3%N] ].
@@ -89,3 +107,9 @@ Example ex_topo_order_is_git :
   map fst (match topo_walk ex_odb false 40 (fun _ => true) false [4%N] [] with Ok l => l | _ => [] end)
   = git_topo_order ex_odb false false [4%N] [] 40.
 Proof. vm_compute. reflexivity. Qed.
+Example ex_no_graph : no_graph ex_odb.
+Proof.
+  intros i c H. unfold find, ex_odb in H.
+  destruct (N.to_nat i) as [|[|[|[|[|n]]]]]; cbn in H; try (inversion H; reflexivity).
+  destruct n; discriminate.
+Qed.
